@@ -827,3 +827,7 @@ V('c20-hex-no-plus', 'C20', 'C20.R8',
   (UTL, "    r'^[+\\-]?0X(?:[0-9A-F]+)$',", "    r'^-?0X(?:[0-9A-F]+)$',"), 'sign')
 V('c20-binary-digits', 'C20', 'C20.R8',
   (UTL, "    r'^([+\\-]?(?:[0-1]+))B$',", "    r'^([+\\-]?(?:[1]+))B$',"), 'digit-alphabet')
+V('c03-method-reference-type', 'C03', 'C03.R1b',
+  (OBJ, "        if return_type == 'reference':\n            raise ValueError(\"Method cannot have a reference return type\")\n", ""), 'enum-value')
+V('c03-qualifier-any-type', 'C03', 'C03.R1b',
+  (OBJ, "        if type not in QUALIFIER_CIMTYPES:\n            raise ValueError(\n                _format(\"Invalid CIM type for a qualifier: {0}\", type))\n", "        if type not in ALL_CIMTYPES:\n            raise ValueError(\n                _format(\"Invalid CIM type for a qualifier: {0}\", type))\n", 2), 'enum-value')
